@@ -92,13 +92,18 @@ def res_jobs(prefix, fams, workers=6):
 def plan_C03(tier, seed):
     fams = [("R1", 1), ("R2", 1)] if tier == "quick" else [("R1", 3), ("R2", 2)]
     jobs = res_jobs("c03", fams, workers=6 if tier == "quick" else 8)
+    # pointer-fragment references (C17's universes are part of "every $ref reaches the designated subschema")
+    pc = {"DEV_AtoiIndex": "FALSE", "MUT_UnescapeOrder": "FALSE", "K": 2 if tier == "quick" else 3}
+    jobs += [tlc("c03_%s" % f, "MC_Pointer", dict(pc, Family=q(f)), inv, workers=4)
+             for f, inv in (("P1", ["Designated", "Emit"]), ("P2", ["Emit"]))]
     return dict(
         tlc=jobs, parallel=2,
         replay=[dict(name="c03_replay", family="eval", inputs=[j["name"] for j in jobs])],
         rule="reference topologies enumerated by TLC (MC_Resolve families R1: embedded resources x $id forms x referrer "
              "location x reference forms; R2: Loader documents in chains, diamonds, cycles, canonical aliases x all fault "
              "subsets x all visiting orders); a case is one universe with the L0 prediction (Resolve ok/err, verdict vector "
-             "over uniquely marked targets, Loader call set); non-trivial = Resolve error predicted, or the vector "
+             "over uniquely marked targets, Loader call set); plus the pointer-fragment universes P1/P2 of MC_Pointer (every "
+             "keyword x hostile key strings incl. '+', twins, anchors spelled like pointers; invalid pointers); non-trivial = Resolve error predicted, or the vector "
              "distinguishes targets; distinct by universe text",
         exhaustive=True,
         assumptions=["TLC", "net/url parsing of the generated URI texts", "harness Loader logs every call"])
@@ -170,7 +175,7 @@ def plan_C17(tier, seed):
         tlc=jobs, parallel=2,
         replay=[dict(name="c17_replay", family="eval", inputs=[j["name"] for j in jobs])],
         rule="P1: for every subschema-bearing keyword of both drafts (single / array / map valued, incl. the items and "
-             "dependencies unions) x every key string over the alphabet {a / ~ 0 1 %% space -} up to length K plus non-ASCII "
+             "dependencies unions) x every key string over the alphabet {a / ~ 0 1 %% space - +} up to length K plus non-ASCII "
              "and '$ref', '#', '?', '01' x indexes 0..2, nested to depth 2: a $ref built from the location's RFC 6901 pointer "
              "(escaped, percent-encoded by the harness's own encoder) must reach exactly that uniquely marked subschema; "
              "P2: pointers that name no subschema location (signs, leading zeros, '-', out of range, through non-schema "
@@ -322,6 +327,7 @@ def plan_C10(tier, seed):
     # the malformed-reference and fault universes of the resolver, and represented instances
     jobs += res_jobs("c10", [("R2", 1)])
     jobs += eval_jobs("c10", [("G3", 1)], "d7") + eval_jobs("c10", [("F5", 1), ("DUP", 1)], "2020")
+    jobs += [tlc("c10_P2", "MC_Pointer", {"DEV_AtoiIndex": "FALSE", "MUT_UnescapeOrder": "FALSE", "K": 2, "Family": q("P2")}, ["Emit"], workers=2)]
     rep = rep_job("c10", "RV", 1, [], workers=6)
     # For / ForType on every type universe of MC_Infer (incl. recursive and unsupported types, all ForOptions)
     inf = [tlc("c10_infer_%s" % f, "MC_Infer", {"Family": q(f), "K": 1 if q_ else 2, "CheckKnown": "FALSE", "LegacyNull": "FALSE"},
@@ -340,7 +346,8 @@ def plan_C10(tier, seed):
              "children, cycles and nil children: Resolve succeeds iff the graph is a tree; BU: malformed URIs, fragments in $id, "
              "bad regexps, conflicting union fields, bad BaseURI; LD: Loader misbehaviours (error, nil, wrong document, the root "
              "itself, one object for two URIs, self loops, mutual references, chains, broken documents); plus the resolver's "
-             "fault universes (R2) and represented instances (RV); For/ForType (twice, then Resolve) on every type of the MC_Infer "
+             "fault universes (R2), the invalid JSON-Pointer fragments of MC_Pointer P2 (signs, '-', indexes at and beyond the machine "
+             "word, absent keywords) and represented instances (RV); For/ForType (twice, then Resolve) on every type of the MC_Infer "
              "families T, S, X and O (unsupported kinds plain and nested, with and without IgnoreInvalidTypes, described fields, "
              "self-recursive types through pointers/slices/maps/nested structs, TypeSchemas overrides). Non-trivial = every malformed case; distinct by case text",
         exhaustive=True, assumptions=["TLC", "Go runtime recover() / deadline as the observation of panics and hangs"])
